@@ -137,7 +137,8 @@ class Model:
         for name, p, is_pkg in files:
             src = p.read_text()
             try:
-                tree = ast.parse(src, filename=str(p))
+                from pta.pat import canon
+                tree = canon(ast.parse(src, filename=str(p)))
             except SyntaxError as e:
                 raise AnalysisError(f"cannot parse {p}: {e}") from e
             for parent in ast.walk(tree):
